@@ -286,6 +286,32 @@ def gen_adts(rng, tier):
     return out
 
 
+def gen_widths(rng, tier):
+    """Progressive-file field-width boundaries (C16): parameter sets of 65535 / 65536 bytes in the first key frame,
+    dimensions 65535 / 65536, Opus channel counts 255 / 256, sample rates 65535 / 65536 / 96000."""
+    out = []
+    F = {'bytes': False, 'timing': True, 'tree': True, 'raw': True}
+    def one(cfg, first):
+        cfg['facets'] = F
+        out.append({'cfg': cfg, 'calls': [{'op': 'wv', 'pts': fin(0), 'data': first, 'key': True}] +
+                    ([{'op': 'wa', 'pts': fin(0), 'data': audio_frame(rng, cfg['ac'], 5)}] if cfg['ac'] != 'none' else []) +
+                    [{'op': 'fin', 'how': 'in_place_stats'}]})
+    for n in (65535, 65536):
+        sps = [0x67, 0x42, 0x00, 0x1e] + [((i * 7) % 200) + 20 for i in range(n - 4)]
+        one(base_cfg('h264', 'none'), SC4 + sps + SC4 + PPS_A + SC3 + [0x65, 0x88, 0x84])
+        pps = [0x68] + [((i * 5) % 200) + 20 for i in range(n - 1)]
+        one(base_cfg('h264', 'none'), SC4 + SPS_A + SC4 + pps + SC3 + [0x65, 0x88, 0x84])
+        hsps = HSPS + [((i * 3) % 200) + 20 for i in range(n - len(HSPS))]
+        one(base_cfg('h265', 'none'), SC4 + HVPS + SC4 + hsps + SC4 + HPPS + SC3 + [0x26, 0x01, 0xaf])
+    for (w, h) in ((65535, 65535), (65536, 480), (640, 65536)):
+        one(base_cfg('h264', 'none', w=w, h=h), video_frame(rng, 'h264', True, 4))
+    for ch in (255, 256, 65535):
+        one(base_cfg('h264', 'opus', ch=ch), video_frame(rng, 'h264', True, 4))
+    for rate in (65535, 65536, 88200, 96000):
+        one(base_cfg('h264', 'aac', rate=rate), video_frame(rng, 'h264', True, 4))
+    return out
+
+
 def gen_layout(rng, tier):
     """Every codec x audio x metadata x fast-start configuration with a short valid history
     (zero frames, audio configured without audio frames, single frame, several frames)."""
@@ -293,8 +319,13 @@ def gen_layout(rng, tier):
     dims = [(640, 480), (1920, 1080), (1, 1), (4096, 2160), (65535, 65535), (16, 16)]
     metas = [None, {'title': list('T'.encode())}, {'title': list('Tïtle ☃ 𝄞'.encode()), 'ct_days': 19000, 'ct_sod': 86399, 'lang': list(b'fra')},
              {'lang': list(b'deu')}, {'ct_days': 0, 'ct_sod': 0}, {'title': []}]
-    auds = [('none', 0, 0), ('aac', 48000, 2), ('aac', 44100, 1), ('aac', 96000, 6), ('aac', 7350, 8), ('aac', 12345, 2),
+    auds = [('none', 0, 0), ('aac', 48000, 2), ('aac', 44100, 1), ('aac', 64000, 6), ('aac', 7350, 8), ('aac', 12345, 2),
             ('opus', 48000, 2), ('opus', 48000, 1), ('opus', 44100, 6)]
+    rates13 = [88200, 64000, 48000, 44100, 32000, 24000, 22050, 16000, 12000, 11025, 8000, 7350, 65535, 1, 50000]
+    for i, r in enumerate(rates13):
+        auds.append(('aac', r, (i % 8) + 1))
+    for ch in range(1, 9):
+        auds.append(('opus', 48000, ch))
     k = 0
     for vc in ['h264', 'h265', 'av1', 'vp9']:
         for (ac, rate, ch) in auds:
@@ -361,6 +392,25 @@ def gen_fraginit(rng, tier):
                 calls = [{'op': 'fi'}, {'op': 'fw', 'pts': 0, 'dts': 0, 'data': pad(rng, 5), 'sync': True},
                          {'op': 'fw', 'pts': 3000, 'dts': 3000, 'data': pad(rng, 2), 'sync': False}, {'op': 'fi'}, {'op': 'ff'}, {'op': 'fi'}]
                 out.append({'kind': 'frag', 'cfg': cfg, 'calls': calls})
+    # field-width boundaries (C16): parameter sets of 65535 / 65536 bytes, dimensions 65535 / 65536
+    for vc in ('h264', 'h265'):
+        for n in (65535, 65536):
+            for via in ('builder', 'config'):
+                k += 1
+                cfg = {'vc': vc, 'w': 640, 'h': 480, 'timescale': 90000, 'fragms': 2000, 'via': via, 'unit': 1, 'unit1': True,
+                       'judge_config': True, 'w32': W30, 'i32': W30,
+                       'facets': {'bytes': False, 'timing': False, 'tree': True, 'raw': True}}
+                cfg['sps'] = ps(0x67 if vc == 'h264' else 0x42, n)
+                cfg['pps'] = ps(0x68 if vc == 'h264' else 0x44, 5)
+                if vc == 'h265':
+                    cfg['vps'] = ps(0x40, 6)
+                out.append({'kind': 'frag', 'cfg': cfg, 'calls': [{'op': 'fi'}]})
+    for (w, h) in ((65535, 65535), (65536, 480), (640, 65536)):
+        for via in ('builder', 'config'):
+            cfg = {'vc': 'h264', 'w': w, 'h': h, 'timescale': 90000, 'fragms': 2000, 'via': via, 'unit': 1, 'unit1': True,
+                   'judge_config': True, 'w32': W30, 'i32': W30, 'sps': ps(0x67, 8), 'pps': ps(0x68, 4),
+                   'facets': {'bytes': False, 'timing': False, 'tree': True, 'raw': True}}
+            out.append({'kind': 'frag', 'cfg': cfg, 'calls': [{'op': 'fi'}]})
     # builder without the required parameters must fail
     for vc, missing in [('h264', 'sps'), ('h264', 'pps'), ('h265', 'vps'), ('h265', 'sps'), ('h265', 'pps'), ('av1', 'av1'), ('vp9', 'vp9'), ('h264', 'video')]:
         cfg = {'vc': vc, 'w': 640, 'h': 480, 'timescale': 90000, 'fragms': 2000, 'via': 'builder', 'unit': 1, 'unit1': True,
@@ -933,6 +983,8 @@ def generate(kind, n, seed, tier):
         return gen_adts(rng, tier)
     if kind == 'layout':
         return gen_layout(rng, tier)
+    if kind == 'widths':
+        return gen_widths(rng, tier)
     if kind == 'fraginit':
         return gen_fraginit(rng, tier)
     if kind == 'meta':
